@@ -1119,7 +1119,7 @@ class SVG:
         g = etree.Element(f"{{{svgns()}}}g")
         g.extend(svg)
 
-        if viewport != viewbox:
+        if "viewBox" in svg.attrib:
             preserve_aspect_ratio = svg.attrib.get("preserveAspectRatio", "xMidYMid")
             transform = Affine2D.rect_to_rect(viewbox, viewport, preserve_aspect_ratio)
         else:
